@@ -58,10 +58,21 @@ theorem keeps_more {cb : Bool} (k : Nat) (acc : Bytes) : Keeps cb (readCharS.mor
   | zero => unfold readCharS.more; keeps
   | succ k ih => unfold readCharS.more; keeps; apply ih
 
+theorem keeps_readKey_more {cb : Bool} (k : Nat) : Keeps cb (readKey.more k) := by
+  induction k with
+  | zero => unfold readKey.more; keeps
+  | succ k ih => unfold readKey.more; keeps
+
+/-- `led_readkey()` keeps the text and the cursor, like `termRead` -/
+theorem keeps_readKey {cb : Bool} : Keeps cb readKey := by
+  unfold readKey
+  keeps
+  apply keeps_readKey_more
+
 theorem keeps_readCharS {cb : Bool} (c : Int) (kmap : Nat) : Keeps cb (readCharS c kmap) := by
   unfold readCharS
   keeps
-  apply keeps_more
+  all_goals first | apply keeps_more | apply keeps_readKey
 
 theorem keeps_viChar_go {cb : Bool} (f : Nat) : Keeps cb (viChar.go f) := by
   induction f with
@@ -85,7 +96,7 @@ theorem keeps_ledLine_go {cb : Bool} (post : Bytes) (aiMax : Nat) (im pe : Bool)
   | succ f ih =>
     unfold ledLine.go
     keeps
-    all_goals first | apply ih | apply h1 | apply h3 | apply keeps_readCharS
+    all_goals first | apply ih | apply h1 | apply h3 | apply keeps_readCharS | apply keeps_readKey
 
 theorem keeps_ledLine {cb : Bool} (pref post ai0 : Bytes) (aiMax : Nat) (im ex : Bool) :
     Keeps cb (ledLine pref post ai0 aiMax im ex) := by
